@@ -118,7 +118,7 @@ FastRational gcd(FastRational const & a, FastRational const & b)
 {
     assert(a.isInteger() and b.isInteger());
     if (a.wordPartValid() && b.wordPartValid()) {
-        return FastRational(gcd(a.num, b.num));
+        return FastRational(gcd(absVal(a.num), absVal(b.num))); // non-negative, like mpz_gcd; absVal(INT_MIN) fits uword
     }
     else {
         a.ensure_mpq_valid();
@@ -132,7 +132,7 @@ FastRational lcm(FastRational const & a, FastRational const & b)
 {
     assert(a.isInteger() and b.isInteger());
     if (a.wordPartValid() && b.wordPartValid()) {
-        return lcm(a.num, b.num);
+        return lcm(absVal(a.num), absVal(b.num)); // non-negative, like mpz_lcm
     }
     else {
         a.ensure_mpq_valid();
